@@ -136,26 +136,29 @@ def run(ctx):
     if not own or '524288' not in own[0]['t']['s']:
         ctx.report(V4, ('src/shared_memory.h', SM, 0), 0, 'own_memory size', 'internally owned memory is not 0x80000 bytes')
     cda = ctx.fn(MIU + '::ConvertDataAddress(unsigned short) const')
-    r = Renderer(cda, flatten=True)
-    rets = [n for n in walk(cda['body']) if n.get('k') == 'return']
-    ctx.require(len(rets) == 3, 'ConvertDataAddress: expected three return sites')
-    from ..guards import guards_at
-    for n in rets:
+    from .. import summ, boolform
+    rets = summ.summary(ctx, cda).returns()
+    ctx.require(len(rets) >= 1, 'ConvertDataAddress: no return value')
+    PM = boolform.A('f:%s::page_mode' % MIU)
+    seen_pages = set()
+    for t, cond in rets.items():
         ctx.inst(V4)
-        t = r.r(n['e'])
         page = None
         for pg in ('x_page', 'y_page', 'z_page'):
-            if t == '(+ $0 (* 65536 f:%s::%s) 131072)' % (MIU, pg) or t == '(+ $0 131072 (* 65536 f:%s::%s))' % (MIU, pg) or \
-                    sorted(t[3:-1].split(' ', 0)) and ('f:%s::%s' % (MIU, pg)) in t and t.count('f:%s::' % MIU) == 1 and '131072' in t and '65536' in t and '$0' in t:
+            if t == '(+ $0 (* 65536 f:%s::%s) 131072)' % (MIU, pg):
                 page = pg
         if page is None:
-            ctx.report(V4, cda, n, 'ConvertDataAddress formula', 'data address is not DataMemoryOffset + addr + page * DataMemoryBankSize: ' + t)
+            ctx.report(V4, cda, cda['body'], 'ConvertDataAddress formula', 'data address is not DataMemoryOffset + addr + page * DataMemoryBankSize: ' + t)
             continue
-        g = {(r.r(c), pol) for c, pol, s in guards_at(cda['body'], n)}
-        if ('(< f:%s::%s 2)' % (MIU, page), True) not in g:
-            ctx.report(V4, cda, n, 'ConvertDataAddress ' + page, 'the branch that uses %s does not assert %s < 2 (guards: %s)' % (page, page, sorted(x[0] for x in g)))
-        if page == 'z_page' and ('(== 0 f:%s::page_mode)' % MIU, True) not in g and ('(== f:%s::page_mode 0)' % MIU, True) not in g:
-            ctx.report(V4, cda, n, 'ConvertDataAddress mode', 'the z-page formula is not the page_mode == 0 branch')
+        seen_pages.add(page)
+        if boolform.implies(cond, boolform.A('(< f:%s::%s 2)' % (MIU, page))) is not True:
+            ctx.report(V4, cda, cda['body'], 'ConvertDataAddress ' + page, 'the branch that uses %s does not assert %s < 2 (taken when %s)' % (page, page, boolform.show(cond)[:200]))
+        if page == 'z_page' and boolform.implies(cond, boolform.neg(PM)) is not True:
+            ctx.report(V4, cda, cda['body'], 'ConvertDataAddress mode', 'the z-page formula is not the page_mode == 0 branch')
+        if page != 'z_page' and boolform.implies(cond, PM) is not True:
+            ctx.report(V4, cda, cda['body'], 'ConvertDataAddress mode ' + page, 'the %s formula is not under page_mode != 0' % page)
+    if 'z_page' not in seen_pages:
+        ctx.report(V4, cda, cda['body'], 'ConvertDataAddress z_page', 'no page_mode == 0 translation through z_page')
     # ---- V5
     API = ['ProgramRead', 'ProgramWrite', 'DataRead', 'DataWrite', 'DataReadA32', 'DataWriteA32', 'MMIORead', 'MMIOWrite']
     for nm in API:
